@@ -297,6 +297,165 @@ package gocql
 //@   loop 0: invariant len(types) == len(names)
 
 // ---------------------------------------------------------------------------
+// marshal.go decoders: `data` is any byte string from the wire; `info` and the
+// destination `value` come from the application (non-nil: assumption about the caller).
+// ---------------------------------------------------------------------------
+
+//@ func Unmarshal
+//@   props C05
+//@   requires info != nil
+//@   nonnil_payload value
+
+//@ func unmarshalNullable
+//@   props C05
+//@   requires info != nil
+//@   nonnil_payload value
+
+//@ func unmarshalVarchar
+//@   props C05
+//@   requires info != nil
+//@   nonnil_payload value
+
+//@ func unmarshalBigInt
+//@   props C05
+//@   requires info != nil
+//@   nonnil_payload value
+
+//@ func unmarshalInt
+//@   props C05
+//@   requires info != nil
+//@   nonnil_payload value
+
+//@ func unmarshalSmallInt
+//@   props C05
+//@   requires info != nil
+//@   nonnil_payload value
+
+//@ func unmarshalTinyInt
+//@   props C05
+//@   requires info != nil
+//@   nonnil_payload value
+
+//@ func unmarshalVarint
+//@   props C05
+//@   requires info != nil
+//@   nonnil_payload value
+
+//@ func unmarshalBool
+//@   props C05
+//@   requires info != nil
+//@   nonnil_payload value
+
+//@ func unmarshalFloat
+//@   props C05
+//@   requires info != nil
+//@   nonnil_payload value
+
+//@ func unmarshalDouble
+//@   props C05
+//@   requires info != nil
+//@   nonnil_payload value
+
+//@ func unmarshalDecimal
+//@   props C05
+//@   requires info != nil
+//@   nonnil_payload value
+
+//@ func unmarshalTime
+//@   props C05
+//@   requires info != nil
+//@   nonnil_payload value
+
+//@ func unmarshalTimestamp
+//@   props C05
+//@   requires info != nil
+//@   nonnil_payload value
+
+//@ func unmarshalDate
+//@   props C05
+//@   requires info != nil
+//@   nonnil_payload value
+
+//@ func unmarshalDuration
+//@   props C05
+//@   requires info != nil
+//@   nonnil_payload value
+
+//@ func unmarshalList
+//@   props C05
+//@   requires info != nil
+//@   nonnil_payload value
+//@   alloc_bound len(data)
+//@   assume same(unbox(info, CollectionType).Elem, unbox(info, CollectionType).Elem) && (typeis(info, CollectionType) ==> unbox(info, CollectionType).Elem != nil)
+//@   loop 0: invariant 0 <= i
+//@ func unmarshalMap
+//@   props C05
+//@   requires info != nil
+//@   nonnil_payload value
+//@   alloc_bound len(data)
+//@   assume typeis(info, CollectionType) ==> unbox(info, CollectionType).Elem != nil && unbox(info, CollectionType).Key != nil
+//@   loop 0: invariant 0 <= i
+//@ func unmarshalUUID
+//@   props C05
+//@   requires info != nil
+//@   nonnil_payload value
+
+//@ func unmarshalTimeUUID
+//@   props C05
+//@   requires info != nil
+//@   nonnil_payload value
+
+//@ func unmarshalInet
+//@   props C05
+//@   requires info != nil
+//@   nonnil_payload value
+
+//@ func unmarshalTuple
+//@   props C05
+//@   requires info != nil
+//@   nonnil_payload value
+// TypeInfo values are built by the driver (readTypeInfo, getCassandraType): the dynamic
+// type matches Type() and element types are non-nil (assumed); a []interface{}
+// destination has one entry per tuple element (application side).
+//@   assume typeis(info, TupleTypeInfo)
+//@   assume forall(k, 0 <= k && k < len(unbox(info, TupleTypeInfo).Elems), unbox(info, TupleTypeInfo).Elems[k] != nil)
+//@   assume typeis(value, []interface{}) ==> len(unbox(value, []interface{})) >= len(unbox(info, TupleTypeInfo).Elems)
+//@ func unmarshalUDT
+//@   props C05
+//@   requires info != nil
+//@   nonnil_payload value
+//@   assume typeis(info, UDTTypeInfo)
+//@   assume forall(k, 0 <= k && k < len(unbox(info, UDTTypeInfo).Elements), unbox(info, UDTTypeInfo).Elements[k].Type != nil)
+//@ func unmarshalIntlike
+//@   props C05
+//@   requires info != nil
+//@   nonnil_payload value
+
+// [bytes] inside a tuple/UDT cell: 4-byte length n, then n bytes (n < 0: null).
+//@ func readBytes
+//@   props C02 C05 C12
+//@   requires len(p) >= 4
+//@   ensures int32(be32(p, 0)) < 0 ==> result0 == nil && result1 == p[4:] && result2 == nil
+//@   ensures int32(be32(p, 0)) >= 0 && len(p)-4 < int(int32(be32(p, 0))) ==> result2 != nil
+//@   ensures int32(be32(p, 0)) >= 0 && len(p)-4 >= int(int32(be32(p, 0))) ==> result2 == nil && result0 == p[4:4+int(int32(be32(p, 0)))] && result1 == p[4+int(int32(be32(p, 0))):]
+
+// collection element count / element length: [int] for protocol >= 3, [short] before.
+//@ func readCollectionSize
+//@   props C02 C05 C12
+//@   ensures info.proto > 2 ==> (err == nil) == (len(data) >= 4) && (err == nil ==> size == int(int32(be32(data, 0))) && read == 4)
+//@   ensures info.proto <= 2 ==> (err == nil) == (len(data) >= 2) && (err == nil ==> size == int(be16(data, 0)) && read == 2)
+
+// vint (duration): leading-ones length prefix, then big-endian payload; zig-zag.
+//@ func decVint
+//@   props C05 C12
+//@   requires start >= 0
+//@   ensures result2 == nil ==> start < result1 && result1 <= len(data) && result1 <= start+9
+//@   loop 0: invariant start <= i && i <= start+numBytes && 1 <= numBytes && numBytes <= 8 && start+numBytes+1 <= len(data)
+
+//@ func decVints
+//@   props C05 C12
+
+// ---------------------------------------------------------------------------
 // uuid.go (RFC 4122; oracle in /verif/spec/bv.smt2 blocks uuid, hex)
 // ---------------------------------------------------------------------------
 
